@@ -81,6 +81,10 @@ type Case struct {
 	ACSIndex *string `json:"acs_index,omitempty"`
 	Dest     bool    `json:"dest,omitempty"`
 	Relay    string  `json:"relay,omitempty"`
+	// Opt is the optional content of the AuthnRequest (Subject/NameID, NameIDPolicy, Extensions, Conditions,
+	// RequestedAuthnContext, Scoping, ProviderName ...): all of it is chosen by the requester, none of it
+	// is part of the authenticated session.
+	Opt idpkit.ReqOptional `json:"req_optional"`
 
 	Sessions [2]idpkit.Sess `json:"sessions"`
 	Markers  [2]string      `json:"markers"`
@@ -113,6 +117,10 @@ func marked(t *rapid.T, marker, label string) string {
 
 func genSession(t *rapid.T, marker string) idpkit.Sess {
 	s := idpkit.Sess{ID: "sid-" + marker, Index: "idx-" + marker, NameID: marked(t, marker, "nameid")}
+	if rapid.IntRange(0, 4).Draw(t, "nameid-empty") == 0 {
+		// a session provider may fill only the user attributes
+		s.NameID = ""
+	}
 	s.NameIDFormat = rapid.SampledFrom([]string{"", string(saml.EmailAddressNameIDFormat), string(saml.PersistentNameIDFormat), string(saml.UnspecifiedNameIDFormat)}).Draw(t, "nameid-format")
 	opt := func(label string) string {
 		if rapid.IntRange(0, 2).Draw(t, label+"?") == 0 {
@@ -140,6 +148,57 @@ func genSession(t *rapid.T, marker string) idpkit.Sess {
 }
 
 var requestable = []string{"email", "e-mail", "EmailAddress", "emailaddress", "name", "cn", "common name", "givenname", "first_name", "surname", "familyname", "uid", "user", "userid", "groups", "phone", ""}
+
+// reqMarker is contained in every identity-like value that only the AuthnRequest carries.
+const reqMarker = "qx0request"
+
+func genOptional(t *rapid.T, other idpkit.Sess) idpkit.ReqOptional {
+	var o idpkit.ReqOptional
+	has := func(label string, oneIn int) bool { return rapid.IntRange(0, oneIn-1).Draw(t, label+"?") == 0 }
+	if has("subject", 2) {
+		o.SubjectNameID = idpkit.P(rapid.SampledFrom([]string{reqMarker + "-ceo@victim.example.com", reqMarker, reqMarker + " <&> \"x\"", " " + reqMarker + "\t"}).Draw(t, "subject-nameid"))
+		o.SubjectFormat = rapid.SampledFrom([]string{"", string(saml.EmailAddressNameIDFormat), string(saml.PersistentNameIDFormat)}).Draw(t, "subject-format")
+		o.SubjectConfirmation = rapid.Bool().Draw(t, "subject-confirmation")
+	}
+	if has("extensions", 4) {
+		o.Extensions = idpkit.P(reqMarker + "-extension")
+	}
+	if has("policy", 2) {
+		if has("policy-format", 2) {
+			o.PolicyFormat = idpkit.P(rapid.SampledFrom([]string{string(saml.EmailAddressNameIDFormat), string(saml.PersistentNameIDFormat), string(saml.TransientNameIDFormat), string(saml.UnspecifiedNameIDFormat), ""}).Draw(t, "policy-format"))
+		}
+		if has("policy-spnq", 2) {
+			o.PolicySPNameQual = idpkit.P(rapid.SampledFrom([]string{"https://other-sp.example.org/metadata", "urn:example:sp", ""}).Draw(t, "policy-spnq"))
+		}
+		o.PolicyAllowCreate = idpkit.P(rapid.SampledFrom([]string{"true", "false", "1", "0"}).Draw(t, "policy-allow-create"))
+	}
+	if has("conditions", 4) {
+		o.ConditionsAudience = idpkit.P("https://" + reqMarker + ".example.net/audience")
+	}
+	if has("authn-context", 4) {
+		o.AuthnContextClass = idpkit.P(rapid.SampledFrom([]string{"urn:oasis:names:tc:SAML:2.0:ac:classes:Password", "urn:oasis:names:tc:SAML:2.0:ac:classes:X509"}).Draw(t, "authn-context"))
+	}
+	if has("scoping", 4) {
+		o.RequesterID = idpkit.P("https://" + reqMarker + ".example.net/requester")
+	}
+	if has("provider-name", 4) {
+		o.ProviderName = idpkit.P(reqMarker + " portal")
+	}
+	if has("attr-svc-index", 4) {
+		o.AttrSvcIndex = idpkit.P(rapid.SampledFrom([]string{"0", "1", "7"}).Draw(t, "attr-svc-index"))
+	}
+	if has("force-authn", 4) {
+		o.ForceAuthn = idpkit.P(rapid.SampledFrom([]string{"true", "false"}).Draw(t, "force-authn"))
+	}
+	if has("is-passive", 6) {
+		o.IsPassive = idpkit.P(rapid.SampledFrom([]string{"true", "false"}).Draw(t, "is-passive"))
+	}
+	if has("consent", 6) {
+		o.Consent = idpkit.P("urn:oasis:names:tc:SAML:2.0:consent:obtained")
+	}
+	_ = other
+	return o
+}
 
 // metaMarker is contained in every value that only the SP's metadata carries.
 const metaMarker = "qm0metadata"
@@ -277,6 +336,9 @@ func gen(t *rapid.T) Case {
 	}
 	c.Markers = [2]string{"qa" + rapid.StringMatching(`[a-z0-9]{9}`).Draw(t, "markerA"), "qb" + rapid.StringMatching(`[a-z0-9]{9}`).Draw(t, "markerB")}
 	c.Sessions = [2]idpkit.Sess{genSession(t, c.Markers[0]), genSession(t, c.Markers[1])}
+	if !c.Initiated && rapid.IntRange(0, 2).Draw(t, "optional-request-content") != 0 {
+		c.Opt = genOptional(t, c.Sessions[1])
+	}
 	return c
 }
 
@@ -382,7 +444,7 @@ func (c Case) serve(idp *saml.IdentityProvider, sessions *idpkit.Sessions, reqID
 			return
 		}
 		spec := idpkit.ReqSpec{ID: idpkit.P(reqID), Version: idpkit.P("2.0"), Issuer: idpkit.P(c.SP.EntityID), ACSURL: c.ACSURL, ACSIndex: c.ACSIndex,
-			IssueInstant: idpkit.P(idpkit.FormatTime(now.Add(-time.Duration(c.ClockMs) * time.Millisecond)))}
+			IssueInstant: idpkit.P(idpkit.FormatTime(now.Add(-time.Duration(c.ClockMs) * time.Millisecond))), Opt: c.Opt}
 		if c.Dest {
 			spec.Destination = idpkit.P(c.IDP.SSOURL())
 		}
@@ -545,13 +607,28 @@ func (c Case) judge(o outcome, sp SPMeta, md *saml.EntityDescriptor, reqID strin
 		return "no single Subject"
 	}
 	sess := c.Sessions[me]
-	nid := subj.Kid(xmlw.NSAssertion, "NameID")
-	if nid == nil || nid.Text != sess.NameID {
-		got := "<none>"
-		if nid != nil {
-			got = nid.Text
+	// the name identifier is the session's: an empty session NameID means an empty (or absent) NameID,
+	// never a value taken from anywhere else (e.g. the Subject the requester asked for)
+	if len(subj.Kids(xmlw.NSAssertion, "NameID")) > 1 {
+		return "more than one NameID in the Subject"
+	}
+	nid, gotNameID := subj.Kid(xmlw.NSAssertion, "NameID"), ""
+	if nid != nil {
+		gotNameID = nid.Text
+	}
+	if gotNameID != sess.NameID || (nid == nil && sess.NameID != "") {
+		return fmt.Sprintf("NameID %q (present=%v), session NameID %q", gotNameID, nid != nil, sess.NameID)
+	}
+	// nothing that only the request carried may show up as subject, condition or attribute
+	for _, part := range append([]*xmlw.Node{subj, as.Kid(xmlw.NSAssertion, "Conditions")}, as.Kids(xmlw.NSAssertion, "AttributeStatement")...) {
+		if part == nil {
+			continue
 		}
-		return fmt.Sprintf("NameID %q, session NameID %q", got, sess.NameID)
+		for _, str := range part.Strings() {
+			if strings.Contains(str, reqMarker) {
+				return fmt.Sprintf("a value supplied only by the AuthnRequest appears in the assertion's %s: %q", part.Local, str)
+			}
+		}
 	}
 	bearers := 0
 	for _, sc := range subj.Kids(xmlw.NSAssertion, "SubjectConfirmation") {
@@ -697,6 +774,20 @@ func check(c Case) (res pbt.Result) {
 		default:
 			cl = append(cl, "acs:none")
 		}
+	}
+	for i, sx := range c.Sessions {
+		if sx.NameID == "" {
+			cl = append(cl, fmt.Sprintf("session%d:empty-nameid", i))
+		}
+	}
+	if c.Opt.SubjectNameID != nil {
+		cl = append(cl, "request:subject-nameid")
+		if c.Sessions[0].NameID == "" || c.Sessions[1].NameID == "" {
+			cl = append(cl, "request:subject-nameid+empty-session-nameid")
+		}
+	}
+	if len(c.Opt.Strings()) > 0 || c.Opt.PolicyAllowCreate != nil || c.Opt.AttrSvcIndex != nil || c.Opt.ForceAuthn != nil {
+		cl = append(cl, "request:optional-content")
 	}
 	if len(c.SP.Services) > 0 {
 		cl = append(cl, "attr-services")
@@ -894,6 +985,46 @@ func enumMetadataExtras(_ string, emit func(Case)) {
 	}
 }
 
+// enumRequestContent: every optional element / attribute of the AuthnRequest, alone and all together, against
+// sessions with and without a NameID, plain and encrypted, both encodings.
+func enumRequestContent(_ string, emit func(Case)) {
+	full := idpkit.ReqOptional{
+		SubjectNameID: idpkit.P(reqMarker + "-ceo@victim.example.com"), SubjectFormat: string(saml.EmailAddressNameIDFormat), SubjectConfirmation: true,
+		Extensions: idpkit.P(reqMarker + "-extension"), PolicyFormat: idpkit.P(string(saml.PersistentNameIDFormat)), PolicySPNameQual: idpkit.P("https://other-sp.example.org/metadata"),
+		PolicyAllowCreate: idpkit.P("true"), ConditionsAudience: idpkit.P("https://" + reqMarker + ".example.net/audience"),
+		AuthnContextClass: idpkit.P("urn:oasis:names:tc:SAML:2.0:ac:classes:X509"), RequesterID: idpkit.P("https://" + reqMarker + ".example.net/requester"),
+		ProviderName: idpkit.P(reqMarker + " portal"), AttrSvcIndex: idpkit.P("1"), ForceAuthn: idpkit.P("true"), IsPassive: idpkit.P("false"), Consent: idpkit.P("urn:oasis:names:tc:SAML:2.0:consent:obtained"),
+	}
+	opts := []idpkit.ReqOptional{full,
+		{SubjectNameID: full.SubjectNameID},
+		{SubjectNameID: idpkit.P(reqMarker), SubjectFormat: full.SubjectFormat, SubjectConfirmation: true},
+		{Extensions: full.Extensions}, {PolicyFormat: full.PolicyFormat, PolicySPNameQual: full.PolicySPNameQual, PolicyAllowCreate: idpkit.P("false")},
+		{ConditionsAudience: full.ConditionsAudience}, {AuthnContextClass: full.AuthnContextClass}, {RequesterID: full.RequesterID},
+		{ProviderName: full.ProviderName, AttrSvcIndex: full.AttrSvcIndex, ForceAuthn: full.ForceAuthn, IsPassive: full.IsPassive, Consent: full.Consent}}
+	withID := idpkit.Sess{ID: "sa", Index: "ia", NameID: "qaaaaaaaaaaa-alice", UserName: "qaaaaaaaaaaa-u", Email: "qaaaaaaaaaaa@example.com"}
+	noID := idpkit.Sess{ID: "sb", Index: "ib", NameID: "", UserName: "qbbbbbbbbbbb-u", Groups: []string{"qbbbbbbbbbbb-g"}}
+	for _, o := range opts {
+		for _, order := range [][2]idpkit.Sess{{withID, noID}, {noID, withID}} {
+			for _, use := range []string{"", "encryption"} {
+				for _, m := range []string{"GET", "POST"} {
+					for _, services := range []bool{false, true} {
+						c := Case{IDP: idpkit.IDPConf{Base: "https://idp.example.com"}, SkewMs: 180000, DelayMs: 90000,
+							SP:     SPMeta{EntityID: "https://sp.example.com/saml/metadata", KeyUse: use, KeyName: "sp", Descs: [][]EP{{{Binding: post, Location: "https://sp.example.com/saml/acs", Index: 0}}}},
+							Method: m, ReqID: "id-enum", Relay: "rs", ClockMs: 1000, Opt: o, Sessions: order, Markers: [2]string{"qaaaaaaaaaaa", "qbbbbbbbbbbb"}}
+						if order[0].NameID == "" {
+							c.Markers = [2]string{"qbbbbbbbbbbb", "qaaaaaaaaaaa"}
+						}
+						if services {
+							c.SP.Services = []AttrSvc{{Attrs: []ReqAttr{{Name: "uid", NameFormat: "urn:oasis:names:tc:SAML:2.0:attrname-format:basic"}}}, {Attrs: []ReqAttr{{Name: "email", NameFormat: "urn:oasis:names:tc:SAML:2.0:attrname-format:basic"}}}}
+						}
+						emit(c)
+					}
+				}
+			}
+		}
+	}
+}
+
 var prop = &pbt.Prop[Case]{
 	ID: "C06",
 	Rule: "cases: two consecutive validated requests (GET-deflate / POST; ACS named by URL, by index, by both, or not at all) or IdP-initiated launches served by one IdP for two sessions with disjoint markers " +
@@ -901,12 +1032,13 @@ var prop = &pbt.Prop[Case]{
 		"x IdP config (RSA Key or opaque crypto.Signer, default + each RSA signature method, 0-2 intermediates) x (MaxClockSkew, MaxIssueDelay) x clock position relative to the request's IssueInstant; " +
 		"registered ACS endpoints may carry ResponseLocation, RequestedAttributes may list AttributeValue children (marked, metadata-only values), the IdP configuration fields no clause mentions are varied (LogoutURL, LoginURL, ValidDuration, form template, explicit assertion maker, stale Key beside a Signer), " +
 		"and in a third of the cases the SP is re-registered (other endpoints / keys / requested attributes) on the same registry and IdentityProvider value between the two responses, the second being judged against the new registration; " +
+		"sessions may have an empty NameID (then the emitted NameID must be empty or absent) and two thirds of the SP-initiated cases carry optional, requester-chosen request content (Subject/NameID, NameIDPolicy, Extensions, Conditions, RequestedAuthnContext, Scoping, ProviderName, AttributeConsumingServiceIndex, ForceAuthn, IsPassive, Consent) whose marked values must not appear in the assertion's Subject, Conditions or attributes (own exhaustive grid); " +
 		"exhaustive: method x key kind x intermediates x key use x flow x clock grid; ResponseLocation x requested-attribute values x encryption x selection mode x re-registration grid. " +
 		"non-trivial: selected endpoint differs from the request's ACS URL or from the first registered endpoint, or a session string is non-ASCII/markup, or the clock is within MaxClockSkew of the request's IssueInstant, or a non-default signature method / external signer is configured. distinct: sha256 of the JSON case.",
 	Gen:   gen,
 	Check: check,
 	Reset: fix.Reset,
-	Enums: []pbt.Enum[Case]{{Name: "config-grid", Each: enumConfigs}, {Name: "metadata-extras-grid", Each: enumMetadataExtras}},
+	Enums: []pbt.Enum[Case]{{Name: "config-grid", Each: enumConfigs}, {Name: "metadata-extras-grid", Each: enumMetadataExtras}, {Name: "request-optional-content-grid", Each: enumRequestContent}},
 	Assumptions: []string{
 		"the emitted form is read with golang.org/x/net/html, the decoded XML with an own reader on encoding/xml's tokenizer, EncryptedAssertion is opened with a stdlib-only RSA-OAEP/AES-CBC helper and, as cross-check, with internal/refenc",
 		"signatures are verified with goxmldsig (fresh ValidationContext, only the IdP certificate, IdAttribute ID, fake clock at the fixture epoch): the observation point the property names",
